@@ -8,7 +8,8 @@ CFG = {'module': 'Dnp3.Props.C13',
               'broadcast_bit_rule',
               'class_bits_exact',
               'overflow_bit_interval',
-              'overflow_flag_interval'],
+              'overflow_flag_interval',
+              'complete_class_poll_carries_every_event'],
  'rule': 'engine outstation: session histories (3-40 ops) from a weighted grammar over every function code '
          'the outstation executes (+ unknown codes, response codes, bad control flags, truncated fragments), '
          'valid and malformed object headers, byte-identical repeats, solicited/unsolicited confirms with '
